@@ -1141,4 +1141,47 @@ theorem planOperation_total {env : Env} (hr : RoutesNonempty env) {fuel : Nat} {
     | noWrapDefn => simp [Benign] at hb
     | crash s => simp [Benign] at hb
 
+/-! ## Part 5: no client field is asked for twice (C13) -/
+
+/-- the client's fields in the steps built so far, counted with multiplicity -/
+def asked : List Step → Nat
+  | [] => 0
+  | s :: ss => cfcL s.sel + asked ss
+
+theorem asked_append : ∀ (a b : List Step), asked (a ++ b) = asked a + asked b
+  | [], b => by simp [asked]
+  | x :: a, b => by simp only [List.cons_append, asked, asked_append a b]; omega
+
+theorem buildSteps_asked (env : Env) (fuel : Nat) :
+    ∀ (k next : Nat) (queue : List Payload) (acc res : List Step),
+      buildSteps env fuel k next queue acc = .ok res → QueueNoSpread queue → asked res ≤ asked acc + waiting queue
+  | 0, _, [], acc, res, h, _ => by simp only [buildSteps] at h; cases h; simp [waiting]
+  | 0, _, _ :: _, _, _, h, _ => by simp only [buildSteps] at h; cases h
+  | _ + 1, _, [], acc, res, h, _ => by simp only [buildSteps] at h; cases h; simp [waiting]
+  | k + 1, next, p :: rest, acc, res, h, hq => by
+    have hns := hq p (List.mem_cons_self ..)
+    have hrest : QueueNoSpread rest := fun o ho => hq o (List.mem_cons_of_mem _ ho)
+    simp only [buildSteps] at h
+    split at h
+    · cases h
+    · rename_i sel st he
+      have hacct := extract_acct env fuel _ _ _ _ he hns rfl
+      have hqns := extract_noSpread env fuel _ _ _ _ he hns rfl hrest
+      have ih := buildSteps_asked env fuel k _ _ _ res h hqns
+      rw [asked_append] at ih
+      simp only [asked, waiting] at ih hacct ⊢
+      omega
+
+/-- **No client field is asked for twice**: over all steps of the plan, the client's fields the steps ask their
+    services for — counted with multiplicity — are at most the fields of the client's document.  With
+    `planOperation_covers` (every requested leaf is asked for by some step) each is asked for exactly once. -/
+theorem planOperation_no_field_twice {env : Env} {fuel : Nat} {operation : String} {sels : List Sel} {steps : List Step}
+    (hns : noSpreadL sels = true) (h : planOperation env fuel operation sels = .ok steps) :
+    asked steps ≤ cfcL sels := by
+  have := buildSteps_asked env fuel _ _ _ _ _ h (by
+    intro p hp
+    have : p = _ := List.mem_singleton.1 hp
+    subst this; exact hns)
+  simpa [asked, waiting] using this
+
 end Pl
